@@ -743,6 +743,47 @@ Example small_blocks_example_pre_fix :
   Forall (fun b => blen b + blen (p_prefix P_shellpty_pre_fix) + overhead <= max_payload) [block_of 16355; block_of 10].
 Proof. repeat constructor; vm_compute; discriminate. Qed.
 
+(** * Several senders sharing one key *)
+
+Lemma accept_all_app : forall w e c, accept_all e w = true ->
+  (match w with [] => e | _ => last w 0 + 1 end) <= c -> accept_all e (w ++ [c]) = true.
+Proof.
+  induction w as [|x w IH]; intros e c H Hc; cbn [app accept_all] in *.
+  - rewrite andb_true_r. lia.
+  - apply andb_prop in H. destruct H as [H1 H2]. rewrite H1. cbn [andb].
+    apply IH; [assumption|]. destruct w as [|y w]; [cbn in *; lia|].
+    change (last (x :: y :: w) 0) with (last (y :: w) 0) in Hc. exact Hc.
+Qed.
+
+Lemma sh_both_inv : forall steps st,
+  only_both steps = true ->
+  accept_all 0 (sh_wire st) = true ->
+  (match sh_wire st with [] => 0 | _ => last (sh_wire st) 0 + 1 end) <= sh_ctr st ->
+  accept_all 0 (sh_wire (fold_left sh_step steps st)) = true.
+Proof.
+  induction steps as [|x steps IH]; intros st Hb Ha Hc; cbn [fold_left]; [assumption|].
+  destruct x as [s|s|s]; cbn in Hb; try discriminate.
+  apply IH; [assumption| |]; cbn [sh_step sh_wire sh_ctr].
+  - apply accept_all_app; assumption.
+  - destruct (sh_wire st ++ [sh_ctr st]) eqn:E; [destruct (sh_wire st); discriminate|].
+    rewrite <- E. rewrite last_last. lia.
+Qed.
+
+(** When sealing and handing over are one critical section, for every number
+    of senders and every schedule the frames reach the wire in counter order
+    and the receiver accepts all of them. *)
+Theorem shared_key_atomic_accepts_all : forall steps,
+  only_both steps = true -> accept_all 0 (sh_wire (sh_run steps)) = true.
+Proof.
+  intros steps H. unfold sh_run. apply sh_both_inv; [assumption|reflexivity|cbn; lia].
+Qed.
+
+(** When the lock covers the seal only there is a schedule of two senders
+    whose second frame the receiver refuses. *)
+Lemma shared_key_split_refuted : exists steps,
+  accept_all 0 (sh_wire (sh_run steps)) = false /\ sh_wire (sh_run steps) = [1; 0].
+Proof. exists [SealOnly 1; SealOnly 2; WriteOnly 2; WriteOnly 1]. vm_compute. split; reflexivity. Qed.
+
 (** * The shell client adapter *)
 
 Lemma adapter_exact_from : forall ops st,
